@@ -511,7 +511,7 @@ func init() {
 		Doc: "module-wide: package-level variables (variants.Empty, Keywords, operators, operatorTypes, CharValidator) are written only during package initialisation, never reassigned, never mutated through",
 		Run: rulePureGlobal})
 	register(&Rule{ID: "PURE.nogo", Floor: 1,
-		Doc: "the module starts no goroutine and uses no channel, sync or atomic primitive: the only concurrency is the caller's, so race freedom reduces to 'shared memory is only read'",
+		Doc: "the module starts no goroutine and uses no channel: the only concurrency is the caller's, so race freedom reduces to 'shared memory is only read' (or written under the module's own locks / Once)",
 		Run: rulePureNoGo})
 }
 
@@ -593,11 +593,47 @@ func rulePureGlobal(c *Ctx) []*Obligation {
 	}
 	sort.Slice(globals, func(i, j int) bool { return globals[i].rel+globals[i].g.Name() < globals[j].rel+globals[j].g.Name() })
 	mutators := map[string]bool{"Assign": true, "Clear": true, "SetLength": true, "SetByIndex": true}
+	// functions handed to (*sync.Once).Do run at most once, before any reader gets past Do, with the
+	// synchronisation Once provides: lazy initialisation is initialisation
+	onceInit := map[*ssa.Function]bool{}
+	for _, fn := range c.AllLibFuncs() {
+		for _, ci := range allCalls(fn) {
+			f := calleeObj(ci.Common())
+			if f == nil || f.Pkg() == nil || f.Pkg().Path() != "sync" || f.Name() != "Do" || recvNamed(f) != "Once" {
+				continue
+			}
+			args := callArgs(ci.Common())
+			if len(args) != 1 {
+				continue
+			}
+			switch a := args[0].(type) {
+			case *ssa.MakeClosure:
+				if g, ok := a.Fn.(*ssa.Function); ok {
+					onceInit[g] = true
+				}
+			case *ssa.Function:
+				onceInit[a] = true
+			}
+		}
+	}
+	// a named function counts only if Once.Do is its sole user
+	for g := range onceInit {
+		if g.Parent() != nil {
+			continue
+		}
+		for _, fn := range c.AllLibFuncs() {
+			for _, ci := range allCalls(fn) {
+				if ci.Common().StaticCallee() == g {
+					delete(onceInit, g)
+				}
+			}
+		}
+	}
 	for _, x := range globals {
 		key := x.rel + "." + x.g.Name() + "#read-only"
 		bad := ""
 		for _, fn := range c.AllLibFuncs() {
-			isInit := fn.Name() == "init" || strings.HasPrefix(fn.Name(), "init#")
+			isInit := fn.Name() == "init" || strings.HasPrefix(fn.Name(), "init#") || onceInit[fn]
 			for _, b := range fn.Blocks {
 				for _, in := range b.Instrs {
 					switch t := in.(type) {
@@ -660,16 +696,9 @@ func rulePureNoGo(c *Ctx) []*Obligation {
 			}
 		}
 	}
-	for rel, p := range c.Lib {
-		for path := range p.Imports {
-			if path == "sync" || path == "sync/atomic" || path == "unsafe" || path == "reflect" {
-				if path == "sync" || path == "sync/atomic" {
-					bad = rel + " imports " + path
-				}
-			}
-		}
-	}
-	o.check(bad == "", "module#no-concurrency-primitives", "-", fmt.Sprintf("%d library packages: no go statement, channel, sync or atomic use", len(c.Lib)), bad+": the race argument (shared memory is only read) no longer covers the module")
+	// locks, Once and atomics do not introduce concurrency of the module's own: what they guard is still
+	// judged by the write rules (PURE.global, the unchanged-instance clauses), so importing them is no finding
+	o.check(bad == "", "module#no-concurrency-primitives", "-", fmt.Sprintf("%d library packages: no go statement and no channel", len(c.Lib)), bad+": the race argument (the only concurrency is the caller's; shared memory is only read) no longer covers the module")
 	// unsafe, or reflection beyond the read-only comparison helpers, would invalidate the call-graph and
 	// effect analyses: that is a broken assumption of the checker (undecided), not a property violation
 	bad2 := ""
